@@ -303,7 +303,7 @@ class Explorer:
                 dflt = run.ev_typed(node.args[1], fr, obj.ty.v)
                 res, new = call_method(run, obj, attr, [key, dflt], {}, node)
                 if new is not None:
-                    run.assign(objnode, new, fr)
+                    run.assign(objnode, new, fr, writeback=True)
                 return res
             if isinstance(obj, (Val, VTuple)) and not (isinstance(obj, Val) and isinstance(obj.ty, TRef) and not self.reg.stubs.get(("method", obj.ty.name, attr))):
                 hook = self.reg.stubs.get(("method", _tyname(obj), attr))
@@ -313,7 +313,7 @@ class Explorer:
                     return hook(run, obj, args, kwargs, node)
                 res, new = call_method(run, obj, attr, args, kwargs, node)
                 if new is not None:
-                    run.assign(objnode, new, fr)
+                    run.assign(objnode, new, fr, writeback=True)
                 return res
             callee = run.get_attr(obj, attr, node.func)
         else:
@@ -858,6 +858,13 @@ class Explorer:
             return
         pf = self.post_frame(run, fr, None)
         pf.vars["raised"] = Conc(exc)
+        if c.ghost_update is not None:
+            from .interp import SpecCtx
+            run.spec += 1
+            try:
+                c.ghost_update(SpecCtx(run, pf))
+            finally:
+                run.spec -= 1
         cond = c.raises[match]
         if cond is not None:
             run.oblige(f"xpre#{match}", run.spec_bool(cond, pf), kind="xpost", note=f"{match} raised only when: {cond if isinstance(cond, str) else ''} ({exc.site})")
